@@ -362,6 +362,10 @@ func C14(tier string) int {
 		{Name: "A||B double proposal", Threads: [][]CReq{{prop1(0, 5)}, {prop1(0, 5)}}},
 		{Name: "A||B||A double vote", Threads: [][]CReq{{att1(0, 1, 2)}, {att1(0, 1, 2)}, {att1(0, 1, 2)}}},
 		{Name: "A;B||B;A surround", Threads: [][]CReq{{att1(0, 1, 2), att1(0, 0, 3)}, {att1(0, 0, 3), att1(0, 1, 2)}}},
+		// One duty arrives alone, the other inside a batch beside another account's entry (and both inside batches).
+		{Name: "A||[B,x] double vote", Threads: [][]CReq{{att1(0, 1, 2)}, {attsN([]int{0, 1}, 1, 2)}}},
+		{Name: "A||[x,B] surround", Threads: [][]CReq{{att1(0, 1, 2)}, {attsN([]int{1, 0}, 0, 3)}}},
+		{Name: "[A,x]||[x,B] double vote", Threads: [][]CReq{{attsN([]int{0, 1}, 1, 2)}, {attsN([]int{1, 0}, 1, 2)}}},
 	} {
 		jobs = append(jobs, concJob{cs: cs, linear: true, bound: bound})
 	}
